@@ -244,7 +244,7 @@ func (in *Interp) binop(op token.Token, xt types.Type, x, y Value, pos token.Pos
 			}
 		case *SymStr:
 			if op == token.ADD {
-				return &SymStr{a + b.Desc}
+				return &SymStr{Desc: a + b.Desc}
 			}
 		}
 		in.unsupp("string binop %v with %T at %s", op, y, in.posOf(pos))
@@ -252,9 +252,9 @@ func (in *Interp) binop(op token.Token, xt types.Type, x, y Value, pos token.Pos
 		if op == token.ADD {
 			switch b := y.(type) {
 			case string:
-				return &SymStr{a.Desc + b}
+				return &SymStr{Desc: a.Desc + b}
 			case *SymStr:
-				return &SymStr{a.Desc + b.Desc}
+				return &SymStr{Desc: a.Desc + b.Desc}
 			}
 		}
 		in.unsupp("opaque string binop %v at %s", op, in.posOf(pos))
